@@ -12,7 +12,9 @@ import vlib
 
 DEVS = {"Code_SingleRespIgnoresCritical": "single-response-ignores-critical",
         "Code_ZeroTargetsIsError": "zero-targets-nil-response",
-        "Code_ConfigureWaitsForever": "configure-without-tasks-hangs"}
+        "Code_ConfigureWaitsForever": "configure-without-tasks-hangs",
+        "Code_DeployNeedsAllActive": "deploy-needs-all-active"}
+LAUNCH = {"err_src": "silent", "err_error": "failed", "silent": "silent"}
 OUTCOMES = {"quick": '{"ok", "err_src", "err_error"}', "thorough": '{"ok", "err_src", "err_error"}'}
 OPS = {"START": "START_ACTIVITY", "STOP": "STOP_ACTIVITY", "RESET": "RESET"}
 
@@ -47,24 +49,28 @@ def scenario(sid, present, crit, event, outcome, verdict):
         roles += cs.role_task(t, cls, critical=crit[t])
         tasks.append({"id": t, "class": cls, "crit": crit[t], "outcome": outcome[t]})
         if outcome[t] != "ok":
-            scripts.append({"class": cls, "event": event, "outcome": outcome[t]})
+            if event == "DEPLOY":
+                scripts.append({"class": cls, "launch": LAUNCH[outcome[t]]})
+            else:
+                scripts.append({"class": cls, "event": event, "outcome": outcome[t]})
     # a call role that never fires keeps the workflow valid when there is no task at all
     roles += cs.role_call("idle", "idle", "enter_ERROR", critical=False)
     wf = "c02wf%d" % sid
-    files["workflows/%s.yaml" % wf] = cs.workflow(wf, roles)
+    files["workflows/%s.yaml" % wf] = cs.workflow(wf, roles, vars_={"deploy_timeout": "2s"} if event == "DEPLOY" else None)
     hung = verdict == "hung"
-    steps = [{"do": "create", "env": "e1", "wf": wf, "timeout_ms": 4000 if hung else 0}]
-    model = {"tasks": tasks, "event": event, "call": "create" if event == "CONFIGURE" else "control", "op": OPS.get(event, "")}
-    if event != "CONFIGURE":
+    slow = any(t["outcome"] == "silent" for t in tasks) and event != "DEPLOY"   # costs the code's real 90 s response timeout
+    steps = [{"do": "create", "env": "e1", "wf": wf, "timeout_ms": 4000 if hung else (15000 if event == "DEPLOY" else 0)}]
+    model = {"tasks": tasks, "event": event, "call": "create" if event in ("CONFIGURE", "DEPLOY") else "control", "op": OPS.get(event, "")}
+    if event not in ("CONFIGURE", "DEPLOY"):
         if event == "STOP":
             # the START that precedes the STOP under test must not be disturbed by the scripts (event-specific)
             steps.append({"do": "control", "env": "e1", "op": "START_ACTIVITY"})
             model["call"] = "control"
-        steps.append({"do": "control", "env": "e1", "op": OPS[event]})
+        steps.append({"do": "control", "env": "e1", "op": OPS[event], "timeout_ms": 115000 if slow else 0})
     steps += [{"do": "settle", "ms": 40}, {"do": "snapshot"}]
     s = {"id": sid, "family": "C02", "agents": cs.DEFAULT_AGENTS, "files": files, "core": {}, "scripts": scripts, "hooks": {},
          "steps": steps, "model": model}
-    if hung:
+    if hung or slow:
         s["isolated"] = True
     return s
 
@@ -73,7 +79,7 @@ def run(ctx):
     quick = ctx.tier == "quick"
     ctx.assumptions += [
         "Mesos master, agents and executors are simulated (protocol subset the core uses); executors answer per script",
-        "outcomes silent/dies (the code's real 90/120 s timeouts) are exercised only in the thorough tier",
+        "a silent target costs the code's real 90 s response timeout: two such scenarios run (in parallel processes) per tier",
     ]
     ctx.rule = ("case = (tasks present, criticality, event, per-task outcome) enumerated by TLC from TaskTransition's initial states; "
                 "each is run on the real core via gRPC; non-trivial = at least one non-ok outcome or an empty workflow")
@@ -96,6 +102,11 @@ def run(ctx):
                 continue
         sid += 1
         scenarios.append(scenario(sid, present, crit, event, outcome, verdict))
+    # a target that never answers: costs the code's real 90 s response timeout, run in processes of their own
+    # (the verdict expected by the property and the one predicted by the model are computed by TLC in trace validation)
+    for (c1, c2) in ([(True, True), (False, True)] if quick else [(True, True), (False, True), (True, False)]):
+        sid += 1
+        scenarios.append(scenario(sid, ["t1", "t2"], {"t1": c1, "t2": c2}, "START", {"t1": "silent", "t2": "ok"}, "fail" if c1 else "ok"))
     ctx.log("cases from TLC: %d, scenarios: %d" % (len(cases), len(scenarios)))
     by_id = {s["id"]: s for s in scenarios}
     for s in scenarios:
